@@ -212,7 +212,7 @@ func main() {
 			return &rtp.Packet{Header: rtp.Header{Version: 2, SequenceNumber: seq}, Payload: []byte{0x7c, h}}
 		}, maxNALUs+2, 2*maxAU+4096)
 		// endless 1000-byte middle fragments: cut at MaxAccessUnitSize
-		Format.EndlessFragments(ctx, "endless-1000-byte-fua-fragments", ctx.Budget(12000, 40000), func(i int, seq uint16) *rtp.Packet {
+		Format.EndlessFragments(ctx, "endless-1000-byte-fua-fragments", 8000, func(i int, seq uint16) *rtp.Packet {
 			pl := make([]byte, 1000)
 			pl[0], pl[1] = 0x7c, 0x05
 			if i == 0 {
